@@ -183,7 +183,11 @@ class SyncKill:
                     if bad:
                         # reduced hash: the open finding needs ONE usable parity level for the stripe: one level and a clean kill, or two
                         # levels and a kill inside a parity pwrite (the torn block costs the other level)
-                        redhash = (self.scn.hashsize or 16) < 16 and dev[0] == 'd' and ((not torn and a.np == 1) or (torn and a.np == 2 and 'parity' in rep.get('call', '')))
+                        # In general: the lost block plus the m just-added blocks of the other disks in its stripe (their 'was empty' marker
+                        # is not seen) are 1 + m unknowns; fix needs as many usable parity levels (a torn parity pwrite costs one)
+                        m_adds = len({op[1] for op in self.scn.pend if op[0] == 'write'} - {dev[1]})
+                        usable = a.np - (1 if (torn and 'parity' in rep.get('call', '')) else 0)
+                        redhash = (self.scn.hashsize or 16) < 16 and dev[0] == 'd' and (not torn or 'parity' in rep.get('call', '')) and usable < 1 + m_adds
                         if torn and a.np == 1:
                             self.stats['torn_write_np1_unrecoverable'] += 1     # Q-C07: measured, not a violation
                         else:
@@ -991,7 +995,7 @@ def main(tier, replay=None):
     # (reduced hash, one parity: the open finding F-C07-reduced-hash-ignores-empty-marker; with two parity levels the clause must hold)
     confs += [('addsfit', 2, 1, 3, 1, 0, ('splits=2',)), ('addsfit', 2, 1, 1, 1, 0, ('hashsize=8',)), ('addsfit', 2, 2, 3, 1, 0, ('hashsize=8', 'splits=2'))]
     if not quick:
-        confs += [('addsfit', 3, 2, 8, 2, 0, ('splits=2', 'hashsize=12')), ('adds', 2, 1, 3, 1, 0, ('splits=2',)), ('addsfit', 2, 2, 3, 1, 4, ('splits=2',))]
+        confs += [('addsfit', 3, 2, 8, 2, 0, ('splits=2', 'hashsize=4')), ('adds', 2, 1, 3, 1, 0, ('splits=2',)), ('addsfit', 2, 2, 3, 1, 4, ('splits=2',))]
     for (name, nd, np_, cache, ncontent, autosave_at, extra) in confs:
         geo = {kv.split('=')[0]: int(kv.split('=')[1]) for kv in extra if '=' in kv}
         extra = tuple(x for x in extra if '=' not in x)
